@@ -25,6 +25,13 @@ def expand(ops):
         if op["op"] == "delete_run":
             for i in range(op["n"]):
                 out.append({"op": "delete", "b": op["b"], "k": op.get("k", 0) + i})
+        elif op["op"] == "backlog_then_bucket_op":
+            # flush, buffer exactly n single writes (n around the count threshold), then a bucket-level operation:
+            # its own statements must not trip the lazy commit half-way through
+            out.append({"op": "read", "b": op["b"], "kind": "count"})
+            for i in range(op["n"]):
+                out.append({"op": "insert", "b": op["b"], "e": [i % 50, i % 4, "abc"[i % 3]]})
+            out.append({"op": op["then"], "b": op["b2"], "v": op.get("v", 0)})
         elif op["op"] == "bulk_stale":
             # make a handle go stale (create, delete), then bulk-insert through it: must be rejected and change nothing
             out.append({"op": "create_bucket", "b": 3})
@@ -188,7 +195,8 @@ def history_strategy(max_ops=60, with_reads=True, max_bulk=130):
     bucket = st.fixed_dictionaries({"op": st.sampled_from(["create_bucket", "update_bucket", "delete_bucket"]), "b": b, "v": st.integers(0, 9)})
     read = st.fixed_dictionaries({"op": st.just("read"), "b": b, "kind": st.sampled_from(["get", "count", "by_id"])})
     rejected = st.fixed_dictionaries({"op": st.sampled_from(["delete_missing", "bulk_stale", "bulk_stale"]), "b": b, "v": st.integers(0, 9)})
-    parts = [single, single, single, single, single, single, bulk, delrun, bucket, rejected]
+    backlog = st.fixed_dictionaries({"op": st.just("backlog_then_bucket_op"), "b": b, "b2": b, "n": st.sampled_from([48, 49, 50, 50, 51]), "then": st.sampled_from(["delete_bucket", "delete_bucket", "update_bucket", "create_bucket"]), "v": st.integers(0, 9)})
+    parts = [single, single, single, single, single, single, bulk, delrun, bucket, rejected, backlog]
     if with_reads:
         parts.append(read)
     return st.lists(st.one_of(*parts), min_size=5, max_size=max_ops)
@@ -217,6 +225,8 @@ def seeded_history(seed, n_ops=80):
             ops.append({"op": rnd.choice(["create_bucket", "update_bucket", "delete_bucket"]), "b": b, "v": rnd.randrange(10)})
         elif r < 0.95:
             ops.append({"op": rnd.choice(["delete_missing", "bulk_stale"]), "b": b, "v": rnd.randrange(10)})
+        elif r < 0.96:
+            ops.append({"op": "backlog_then_bucket_op", "b": b, "b2": rnd.choice([b, rnd.randrange(3)]), "n": rnd.choice([49, 50, 51]), "then": rnd.choice(["delete_bucket", "update_bucket"]), "v": rnd.randrange(10)})
         else:
             ops.append({"op": "read", "b": b, "kind": rnd.choice(["get", "count", "by_id"])})
     return ops
